@@ -12,6 +12,7 @@ from typing import (
 )  # pylint: disable=unused-import
 
 import icontract._checkers
+import icontract._metaclass
 from icontract._globals import CallableT, ExceptionT, ClassT
 from icontract._types import Contract, Snapshot, InvariantCheckEvent, Invariant
 
@@ -475,14 +476,28 @@ class invariant:  # pylint: disable=invalid-name
             self._invariant is not None
         ), "self._contract must be set if the contract was enabled."
 
-        if not hasattr(cls, "__invariants__"):
-            invariants = []  # type: List[Invariant]
+        if isinstance(cls, icontract._metaclass.DBCMeta):
+            # A class created by the meta-class must own its lists. If it merely inherits the lists from a base class
+            # (*e.g.*, from a base which was decorated only after this class had been created), we must not append
+            # to them, lest the invariant leak to the base class and to all its other descendants.
+            owns_lists = "__invariants__" in cls.__dict__
+        else:
+            # Without the meta-class, the lists are shared by reference with the base class.
+            owns_lists = hasattr(cls, "__invariants__")
+
+        if not owns_lists:
+            # Start with the copies of the inherited lists, if any.
+            invariants = list(getattr(cls, "__invariants__", []))  # type: List[Invariant]
             setattr(cls, "__invariants__", invariants)
 
-            invariants_on_call = []  # type: List[Invariant]
+            invariants_on_call = list(
+                getattr(cls, "__invariants_on_call__", [])
+            )  # type: List[Invariant]
             setattr(cls, "__invariants_on_call__", invariants_on_call)
 
-            invariants_on_setattr = []  # type: List[Invariant]
+            invariants_on_setattr = list(
+                getattr(cls, "__invariants_on_setattr__", [])
+            )  # type: List[Invariant]
             setattr(cls, "__invariants_on_setattr__", invariants_on_setattr)
         else:
             invariants = getattr(cls, "__invariants__")
